@@ -969,6 +969,10 @@ fn enabled_c03(w: &RouterWorld, cfg: &Cfg, v: &mut Vec<(Act, u8)>) {
         for id in 0..4u8 {
             let owned = w.clients.iter().any(|c| c.link.as_ref().is_some_and(|l| l.id == id as usize));
             if owned {
+                // a shadow request and the metrics / alerts ticks do not belong to a link
+                for kind in [5u8, 6, 7] {
+                    v.push((Act::Raw { id, kind }, 0));
+                }
                 continue;
             }
             for kind in 0..super::hostile::RAW_KINDS {
